@@ -237,14 +237,13 @@ def r5_headings(cx):
         t = dict((const_str(k), U(v)) for k, v in zip(d[0].keys, d[0].values))
         ok = t.get("reports") == "self.results['rule']" and t.get("fingerprints") == "self.results['fingerprint']" and t.get("skips") == "self.rule_skips"
     cx.require(ok, d[0] if d else fn, "rule -> reports, fingerprint -> fingerprints, skip list -> skips", construct=short(d[0], 150) if d else "(none)")
-    loops = [s for s in walk_body(fn.body) if isinstance(s, ast.For) and "self.results" in U(s.iter)]
+    cps = [c for c in feat.filtered_copies(fn.body) if "self.results" in U(c[2])]
     ok = False
-    if loops:
-        lp = loops[0]
-        st = [a for a in walk_body(lp.body) if isinstance(a, ast.Assign)]
-        kv = [U(e) for e in lp.target.elts]
-        ok = len(st) == 1 and U(st[0].targets[0]) == "r[%s]" % kv[0] and U(st[0].value) == kv[1] and set(guard_texts(st[0], stop=lp)) == set([("%s in ('rule', 'fingerprint')" % kv[0], False)]) and not has_exit(lp.body)
-    cx.require(ok, loops[0] if loops else fn, "every other result type is copied under its own name", construct=short(loops[0], 120) if loops else "(none)")
+    if len(cps) == 1:
+        node, tgt, it, atoms, key, val, kvar, vvar = cps[0]
+        ok = tgt == "r" and key == kvar and val == vvar and atoms == set([("%s in ('rule', 'fingerprint')" % kvar, False)]) \
+            and U(it) in ("six.iteritems(self.results)", "self.results.items()")
+    cx.require(ok, cps[0][0] if cps else fn, "every other result type is copied under its own name", construct=short(cps[0][0], 120) if cps else "(none)")
     init = ev.func("Evaluator.__init__", "C12.R5")
     rd = [a for a in walk_body(init.body) if isinstance(a, ast.Assign) and U(a.targets[0]) == "self.results"]
     cx.require(len(rd) == 1 and U(rd[0].value) == "defaultdict(list)", rd[0] if rd else init, "results is a per-type list table", construct=short(rd[0]) if rd else "(none)")
@@ -303,7 +302,7 @@ def r6_filter_table(cx):
             continue
         recv, h, safe, desc = pops[o]
         if o == "metadata":
-            ok = recv == "response['system']" and h == "metadata"
+            ok = recv in ("response['system']", "response.get('system', {})") and h == "metadata"
         else:
             ok = recv == "response" and h == heading.get(o, o) and safe
         cx.require(ok, fn, "'%s' not selected -> heading '%s' removed (and only that heading)" % (o, heading.get(o, o)), construct=desc)
@@ -313,8 +312,8 @@ def r6_filter_table(cx):
     txt = U(fm.tree)
     cx.require("opt.replace('fail', 'rule')" in txt, fm.tree.body[0], "the user-facing choice 'fail' is translated to response type 'rule'", construct="opt.replace('fail', 'rule')")
     # skips
-    sk = [x for x in find_calls(fn.body, attr="pop") if U(x) == "response.pop('skips')"]
-    ok = bool(sk) and set(guard_texts(sk[0])) == set([("missing", False), ("'skips' in response", True)])
+    sk = [x for x in find_calls(fn.body, attr="pop") if U(x.func.value) == "response" and x.args and const_str(x.args[0]) == "skips"]
+    ok = len(sk) == 1 and (set(guard_texts(sk[0])) == set([("missing", False), ("'skips' in response", True)]) or (len(sk[0].args) == 2 and set(guard_texts(sk[0])) == set([("missing", False)])))
     cx.require(ok, sk[0] if sk else fn, "skips are hidden iff missing requirements were not requested", construct=short(sk[0]) if sk else "(none)")
 
 
